@@ -315,10 +315,13 @@ def parse_kani_output(out: str, harnesses: list[Harness]) -> list[HarnessResult]
         elif "VERIFICATION:- FAILED" in sec:
             real = [c for c in r.failed_checks if "unwinding assertion" not in c["description"]]
             unwind_failed = any("unwinding assertion" in c["description"] for c in r.failed_checks)
-            if unwind_failed:
-                # other failures may be artefacts of truncation: the bound is too small, not a violation
+            if unwind_failed and not real:
+                # only the unwinding assertion fired: the bound is too small for this code, not a violation (undecided)
                 r.status = "unwind"
             elif real:
+                # With unwinding assertions on, CBMC cuts every path at the bound with assert(false); assume(false): an ordinary
+                # assertion that fails does so on a path INSIDE the bound and is a genuine trace, whether or not some other
+                # path also ran into the bound (e.g. a change that makes a loop spin forever on some inputs).
                 r.status = "failure"
                 r.failed_checks = real
             elif int(mfail.group(1)) > getattr(r, "ignored_float_checks", 0):
